@@ -82,8 +82,18 @@ def run(tier, seed):
                 "--tasks", str(tasks), "--runs", str(60 if quick else 600), "--phases", "2", "--pertask", "4",
                 "--sleepus", "150", "--seed", str(seed * 10 + i), "--out", tc], timeout=3000)
         traces.append((tc, f"concurrent entry workers={workers} tasks={tasks}"))
-    states = gstates
-    trans = 0
+    # design level: the cycle search transcribed step by step (CycleSearch.tla) meets its contract on every
+    # digraph of 4 computing queries in every breadth-first order; its two mutations are refuted
+    cs = vp.tlc("CycleSearch", cfg="CycleSearch_asis.cfg", workers=4, timeout=900, check_ok=False, xmx="6g")
+    cs_sweep = vp.tlc("CycleSearch", cfg="CycleSearch_sweep.cfg", workers=2, timeout=600, check_ok=False)
+    cs_nv = vp.tlc("CycleSearch", cfg="CycleSearch_novisited.cfg", workers=1, timeout=300, check_ok=False)
+    if not cs["ok"]:
+        raise vp.ToolError("CycleSearch (as coded) does not meet its contract in the model:\n" + cs["out"][-2500:])
+    cycle_search_model = {"as_coded_meets_contract": cs["ok"], "distinct_states": cs["distinct"],
+                          "single_backward_sweep_refuted": "MarksTheCycle" in cs_sweep["invariant_violated"],
+                          "no_visited_set_does_not_terminate": "Terminates" in cs_nv["invariant_violated"]}
+    states = gstates + cs["distinct"]
+    trans = cs["generated"]
     events = 0
     stats = {}
     by_kind = {}
@@ -117,6 +127,7 @@ def run(tier, seed):
         "states": states, "transitions": trans,
         "traces_validated_against_impl": nruns,
         "samples": [{"tlc_generated_case": sample_case}],
+        "cycle_search_model": cycle_search_model,
         "cyclic_programs": nprogs,
         "histories_from_tlc": nb,
         "events_validated": events,
